@@ -437,9 +437,9 @@ func partAnswers(pr *ring.PartitionRing, shardQs [][2]any, lbQs []lookbackQ, key
 		out[fmt.Sprintf("ShuffleShard(%v)", q)] = ids(s)
 		out[fmt.Sprintf("ShuffleShardSize(%v)", q)] = fmt.Sprint(pr.ShuffleShardSize(q[1].(int)))
 	}
-	for _, q := range lbQs {
+	for qi, q := range lbQs {
 		s, err := pr.ShuffleShardWithLookback(q.id, q.size, q.period, q.now)
-		k := fmt.Sprintf("ShuffleShardWithLookback(%s,%d,%v,%d)", q.id, q.size, q.period, q.now.Unix())
+		k := fmt.Sprintf("ShuffleShardWithLookback(%s,%d,%v,%d.%03d)#%d", q.id, q.size, q.period, q.now.Unix(), q.now.Nanosecond()/1e6, qi)
 		if err != nil {
 			out[k] = "ERR"
 			continue
@@ -515,6 +515,23 @@ func runWatcherHistory(t *testing.T, run *vt.Run, c vt.CaseID, rng *rand.Rand) {
 			for i := 0; i < 3; i++ {
 				q := shardQs[rng.IntN(len(shardQs))]
 				lbQs = append(lbQs, lookbackQ{q[0].(string), q[1].(int), time.Duration([]int{10, 60, 250}[rng.IntN(3)]) * time.Second, time.Unix(now+int64(rng.IntN(120))-60, 0)})
+			}
+			// look-back periods with a sub-second part, queried at sub-second instants aimed at the second in which
+			// some partition last changed state (window start = that second, give or take one)
+			var stamps []int64
+			for _, p := range d.Partitions {
+				stamps = append(stamps, p.StateTimestamp)
+			}
+			sort.Slice(stamps, func(i, j int) bool { return stamps[i] < stamps[j] })
+			for i := 0; i < 4 && len(stamps) > 0; i++ {
+				q := shardQs[rng.IntN(len(shardQs))]
+				period := []time.Duration{1500 * time.Millisecond, 10700 * time.Millisecond, 900 * time.Millisecond}[rng.IntN(3)]
+				ts := stamps[rng.IntN(len(stamps))]
+				at := time.Unix(ts+int64(period/time.Second)+int64(rng.IntN(3))-1, int64([]int{0, 200, 700}[rng.IntN(3)])*int64(time.Millisecond))
+				lbQs = append(lbQs, lookbackQ{q[0].(string), q[1].(int), period, at})
+				if rng.IntN(2) == 0 { // the same query again one second earlier or later: served from the cache
+					lbQs = append(lbQs, lookbackQ{q[0].(string), q[1].(int), period, at.Add(time.Duration(rng.IntN(3)-1) * time.Second)})
+				}
 			}
 			keys := []uint32{0, rng.Uint32(), rng.Uint32()}
 			fresh, err := ring.NewPartitionRing(*d.Clone().(*ring.PartitionRingDesc))
